@@ -205,7 +205,7 @@ func (in *Interp) concreteInt(v Value, what string) int {
 
 // uniqueValue asks the solver for a value of t and whether it is the only one on this path.
 func (in *Interp) uniqueValue(t *smt.Term) (uint64, bool) {
-	if in.Sol.Check(in.Valid, in.Guard()) != smt.Sat {
+	if in.Sol.Check(in.Guard()) != smt.Sat {
 		return 0, false
 	}
 	// find vars under t
@@ -218,7 +218,7 @@ func (in *Interp) uniqueValue(t *smt.Term) (uint64, bool) {
 	if !ok {
 		return 0, false
 	}
-	if in.Sol.Check(in.Valid, in.Guard(), in.St.Ne(t, in.St.BV(v, t.W))) == smt.Unsat {
+	if in.Sol.Check(in.Guard(), in.St.Ne(t, in.St.BV(v, t.W))) == smt.Unsat {
 		return v, true
 	}
 	return 0, false
